@@ -71,6 +71,10 @@ def replay(prop, path):
         if p.returncode == 1:
             print("VIOLATION property=%s replay=%s" % (prop, path))
             return 1
+        if p.returncode != 0:
+            print("UNDECIDED: the recorded input could not be replayed (rc=%s)" % p.returncode)
+            return 2
+        print("OK property=%s replay: the recorded failing input does not fail on the current tree" % prop)
         return 0
     # no input: re-run the verifier on the unit and look at the same obligation
     print("replay file carries no input; re-running the check for the obligation", rp["obligation"])
